@@ -98,7 +98,7 @@ func run(c *mon.Ctx) {
 		}
 		ptr := 0
 		if r.Chance(3) {
-			ptr = r.PickInt([]int{1, 2, 7, 50, 100, 182, 183})
+			ptr = r.PickInt([]int{1, 2, 7, 50, 100, 182, 183, 184, 200, 254, 255})
 		}
 		sec := p.Section()
 		payload := append(ref.PointerPrefix(ptr), sec...)
